@@ -340,6 +340,15 @@ def search(cfg, start, facts0, target, cut_nodes, atoms, cut_edge=None, on_node=
                                            arrival (its exhausted edge is then infeasible)
     """
     seen = set()
+    # a start inside the body of `for v in xs` (xs a never-mutated local): xs is non-empty there
+    st_ = getattr(start, 'ast', None)
+    par_ = getattr(st_, 'parent', None) if st_ is not None else None
+    while par_ is not None and not isinstance(par_, (ast.FunctionDef, ast.AsyncFunctionDef)):
+        if isinstance(par_, ast.For) and isinstance(par_.iter, ast.Name) and st_ is not par_ and not any(st_ is o or any(st_ is y for y in ast.walk(o)) for o in par_.orelse) \
+                and _stable_list_local(par_, par_.iter.id) and ('N:' + par_.iter.id) not in facts0:
+            facts0 = dict(facts0)
+            facts0['N:' + par_.iter.id] = True
+        par_ = getattr(par_, 'parent', None)
     stack = [(start, facts0, [], True)]
     while stack:
         node, facts, path, first = stack.pop()
@@ -359,6 +368,16 @@ def search(cfg, start, facts0, target, cut_nodes, atoms, cut_edge=None, on_node=
             if node.kind == 'iter' and lab is False and first and nonempty_iter is not None \
                     and nonempty_iter(node, facts):
                 continue
+            if node.kind == 'iter' and lab in (True, False) and isinstance(getattr(node.ast, 'iter', None), ast.Name) \
+                    and _stable_list_local(node.ast, node.ast.iter.id):
+                # `for v in xs` over a local that is only ever assigned, looped over and tested: running the body means xs is
+                # non-empty, skipping the loop on first arrival means it is empty (the fact dies with the next assignment to xs)
+                if lab is True:
+                    f2 = apply_literals(f2, [('lit', 'N:' + node.ast.iter.id, True)])
+                elif first:
+                    f2 = apply_literals(f2, [('lit', 'N:' + node.ast.iter.id, False)])
+                if f2 is None:
+                    continue
             if cut_edge is not None and cut_edge(node, lab, f2):
                 continue
             if t in cut_nodes:
@@ -379,6 +398,48 @@ def search(cfg, start, facts0, target, cut_nodes, atoms, cut_edge=None, on_node=
                 is_first = not _inside(node, t)
             stack.append((t, f3, p2, is_first))
     return None
+
+
+_STABLE = {}
+
+
+def _stable_list_local(loop, name):
+    """name is a local of the function enclosing `loop` that is never mutated in place: every occurrence is a plain assignment
+    target, a for-iterable, a truth test (`if xs`, `not xs`, `while xs`), len(xs), a return value or an element of a returned tuple"""
+    fn = loop
+    while fn is not None and not isinstance(fn, (ast.FunctionDef, ast.AsyncFunctionDef)):
+        fn = getattr(fn, 'parent', None)
+    if fn is None:
+        return False
+    key = (id(fn), name)
+    if key in _STABLE and _STABLE[key][0] is fn:
+        return _STABLE[key][1]
+    ok = name not in [a.arg for a in fn.args.posonlyargs + fn.args.args + fn.args.kwonlyargs]
+    for n in ast.walk(fn):
+        if not ok:
+            break
+        if isinstance(n, ast.Name) and n.id == name:
+            par = getattr(n, 'parent', None)
+            if isinstance(n.ctx, ast.Store):
+                ok = isinstance(par, ast.Assign) and n in par.targets
+            elif isinstance(par, ast.For) and par.iter is n:
+                pass
+            elif isinstance(par, (ast.If, ast.While)) and par.test is n:
+                pass
+            elif isinstance(par, ast.UnaryOp) and isinstance(par.op, ast.Not):
+                pass
+            elif isinstance(par, ast.BoolOp):
+                pass
+            elif isinstance(par, ast.Call) and isinstance(par.func, ast.Name) and par.func.id == 'len' and par.args == [n]:
+                pass
+            elif isinstance(par, ast.Return) or (isinstance(par, ast.Tuple) and isinstance(getattr(par, 'parent', None), ast.Return)):
+                pass
+            else:
+                ok = False
+        elif isinstance(n, (ast.Global, ast.Nonlocal)) and name in n.names:
+            ok = False
+    _STABLE[key] = (fn, ok)
+    return ok
 
 
 def _inside(node, loop_head):
